@@ -7,7 +7,7 @@ def run(f):
     try: return f(), None
     except Exception as e: return None, type(e).__name__+':'+re.sub(r'\d+','N',str(e)[:70])
 dts=[np.uint8,np.int8,np.int16,np.uint16,np.int32,np.uint32,np.int64,np.uint64]
-for it in range(40000):
+for it in range(int(__import__("os").environ.get("RECON_N", 40000))):
     b=random.choice([1,2,4,8,16,32,64]); per=64//b
     n=random.choice([0,1,2,per-1,per,per+1,2*per,2*per+3,random.randint(0,200)])
     n=max(n,0)
